@@ -323,9 +323,10 @@ where
 }
 
 fn make_abbreviated_namespace(namespace: &str, existing_namespaces: &[Rc<Namespace>]) -> String {
-    // the abbreviation becomes an XML prefix and part of a Rust module name: letters and digits only
+    // the abbreviation becomes an XML prefix and part of a Rust module name: ASCII letters and digits only
+    // (char::is_alphanumeric admits characters such as '²' that no Rust identifier may contain)
     fn take_three_chars_max(namespace: &str) -> String {
-        let abbreviation: String = namespace.chars().filter(|c| c.is_alphanumeric()).take(3).collect();
+        let abbreviation: String = namespace.chars().filter(char::is_ascii_alphanumeric).take(3).collect();
         if abbreviation.is_empty() { "ns".to_string() } else { abbreviation }
     }
 
